@@ -75,6 +75,10 @@ func c03(c *Ctx) {
 	r.Rule("C03.eom", "io.EOF leaves messageReader.Read only at the true end of the message or for a stale reader (C05.eof-provenance)")
 	r.Rule("C03.skip-loop", "NextReader returns a reader only for text/binary frames, installs a fresh messageReader for it, and every transport access of messageReader.Read is guarded by the stale-reader test")
 	r.Rule("C03.inflate-iff-rsv1", "every accepted frame stores readDecompress := (RSV1 of this frame); NextReader wraps the reader with the decompressor iff readDecompress")
+	r.Rule("C03.reader-wrappers", "every Read method that reads from an inner reader (joinReader, flateReadWrapper, brNetConn, messageReader, ...) returns the inner count (bytes delivered together with io.EOF or an error are not dropped; a count is discarded only where known to be 0) and lets inner errors other than io.EOF reach the caller")
+	if c.readerWrappers("C03.reader-wrappers") < 4 {
+		r.Fail("C03.reader-wrappers", "package", "floor", c.fn("(*joinReader).Read").Pos(), "fewer than the 4 known reader wrappers were analysed")
+	}
 	r.Rule("C03.inflater-exclusive", "an inflater returned to flateReaderPool is forgotten by the wrapper in the same step (never used or returned twice), so two connections never share one decompressor")
 	r.Assume("bufio.Reader.Read returns 0 <= n <= len(p)")
 
